@@ -123,5 +123,227 @@ pub proof fn lemma_refresh_part2_done<C: Ciphersuite>(r2: Map<Identifier<C>, rou
   }
 }
 
+// ---------------------------------------------------------------------------------------------------
+// refresh_dkg_shares
+//
+// the re-completed commitments of the run as the owner of s2 sees them: every sender's commitment and its own, each with the identity
+// re-inserted in front (the own entry is chained last, so it wins if the own identifier also occurs among the senders)
+pub open spec fn spec_refresh_commitments<C: Ciphersuite>(s2: round2::SecretPackage<C>, r1: Map<Identifier<C>, round1::Package<C>>)
+        -> Map<Identifier<C>, Seq<CoefficientCommitment<C>>>
+{ Map::new(r1.dom().insert(s2.identifier), |id: Identifier<C>| if id == s2.identifier { spec_with_identity::<C>(s2.commitment.0@) } else { spec_with_identity::<C>(r1[id].commitment.0@) }) }
+
+// the five guards in source order: the threshold must be the old one (C10: "a refresh that would change the threshold is rejected"),
+// then the package counts and the sender sets of the two rounds must agree
+pub open spec fn spec_refresh_shares_guard_err<C: Ciphersuite>(s2: round2::SecretPackage<C>, r1: Map<Identifier<C>, round1::Package<C>>,
+        r2: Map<Identifier<C>, round2::Package<C>>, old_kp: KeyPackage<C>) -> Option<Error<C>> {
+    if s2.min_signers != old_kp.min_signers { Some(Error::InvalidMinSigners) }
+    else if r1.dom().len() != s2.max_signers - 1 { Some(Error::IncorrectNumberOfPackages) }
+    else if r1.dom().len() != r2.dom().len() { Some(Error::IncorrectNumberOfPackages) }
+    else if exists|id: Identifier<C>| #[trigger] r1.contains_key(id) && !r2.contains_key(id) { Some(Error::IncorrectPackage) }
+    else { None }
+}
+
+// VSS verification of the refreshing share f received from a sender against that sender's RE-COMPLETED commitment at the own identifier.
+// Because the first entry is the identity, a share of a polynomial whose constant term is not zero fails (thm_nonzero_constant_rejected).
+pub open spec fn spec_refresh_share_ok<C: Ciphersuite>(own: Identifier<C>, f: Scalar<C>, stripped: Seq<CoefficientCommitment<C>>) -> Result<(), Error<C>>
+{ spec_share_ok_c::<C>(f, own, spec_with_identity::<C>(stripped)) }
+
+// first failing share among the senders keys[from..] (ascending); unlike dkg::part3 no culprit is attributed
+pub open spec fn spec_refresh_first_share_err<C: Ciphersuite>(keys: Seq<Identifier<C>>, r1: Map<Identifier<C>, round1::Package<C>>,
+        r2: Map<Identifier<C>, round2::Package<C>>, own: Identifier<C>, from: int) -> Option<Error<C>>
+    decreases keys.len() - from
+{
+    if from < 0 || from >= keys.len() { None } else {
+        match spec_refresh_share_ok::<C>(own, r2[keys[from]].signing_share.0.0, r1[keys[from]].commitment.0@) {
+            Err(e) => Some(e),
+            Ok(_) => spec_refresh_first_share_err::<C>(keys, r1, r2, own, from + 1),
+        }
+    }
+}
+
+pub open spec fn spec_refresh_unknown<C: Ciphersuite>(s2: round2::SecretPackage<C>, r1: Map<Identifier<C>, round1::Package<C>>, old_pk: PublicKeyPackage<C>) -> bool
+{ exists|id: Identifier<C>| r1.dom().insert(s2.identifier).contains(id) && !#[trigger] old_pk.verifying_shares@.contains_key(id) }
+
+// the error of refresh_dkg_shares, step by step in source order (None = success)
+pub open spec fn spec_refresh_dkg_err<C: Ciphersuite>(s2: round2::SecretPackage<C>, r1: Map<Identifier<C>, round1::Package<C>>,
+        r2: Map<Identifier<C>, round2::Package<C>>, old_pk: PublicKeyPackage<C>, old_kp: KeyPackage<C>) -> Option<Error<C>> {
+    if spec_refresh_shares_guard_err::<C>(s2, r1, r2, old_kp) is Some { spec_refresh_shares_guard_err::<C>(s2, r1, r2, old_kp) }
+    else if spec_refresh_first_share_err::<C>(sorted_seq(r2.dom()), r1, r2, s2.identifier, 0) is Some { spec_refresh_first_share_err::<C>(sorted_seq(r2.dom()), r1, r2, s2.identifier, 0) }
+    else if spec_dkg_group_commitment::<C>(spec_refresh_commitments::<C>(s2, r1)) is Err { Some(spec_dkg_group_commitment::<C>(spec_refresh_commitments::<C>(s2, r1))->Err_0) }
+    else if spec_refresh_unknown::<C>(s2, r1, old_pk) { Some(Error::UnknownIdentifier) }
+    else { None }
+}
+
+// the new signing share: old share + all received refreshing shares (ascending senders) + own refreshing share, in the order the
+// protocol text adds them:  ((sum_l f_l(i)) + f_i(i)) + s_i
+pub open spec fn spec_refresh_new_share<C: Ciphersuite>(s2: round2::SecretPackage<C>, r2: Map<Identifier<C>, round2::Package<C>>, old_kp: KeyPackage<C>) -> Scalar<C>
+{ sadd::<C>(sadd::<C>(spec_r2_sum::<C>(sorted_seq(r2.dom()), r2, sorted_seq(r2.dom()).len() as int), s2.secret_share.0), old_kp.signing_share.0.0) }
+
+// success: the refreshed key package and public key package
+pub open spec fn spec_refresh_dkg_output<C: Ciphersuite>(kp: KeyPackage<C>, pk: PublicKeyPackage<C>, s2: round2::SecretPackage<C>,
+        r1: Map<Identifier<C>, round1::Package<C>>, r2: Map<Identifier<C>, round2::Package<C>>, old_pk: PublicKeyPackage<C>, old_kp: KeyPackage<C>) -> bool {
+    let s = spec_refresh_new_share::<C>(s2, r2, old_kp);
+    let m = spec_refresh_commitments::<C>(s2, r1);
+    let gc = spec_dkg_group_commitment::<C>(m)->Ok_0;
+    kp == (KeyPackage::<C> { header: default_header::<C>(), identifier: s2.identifier,
+            signing_share: SigningShare(SerializableScalar(s)), verifying_share: VerifyingShare(SerializableElement(gmul::<C>(s))),
+            verifying_key: old_pk.verifying_key, min_signers: s2.min_signers })
+    && pk.header == old_pk.header && pk.verifying_key == old_pk.verifying_key && pk.min_signers == Some(s2.min_signers)
+    && pk.verifying_shares@.dom() == m.dom()
+    && forall|id: Identifier<C>| m.dom().contains(id) ==> #[trigger] pk.verifying_shares@[id] == VerifyingShare::<C>(SerializableElement(
+            eadd::<C>(spec_vss::<C>(comm_vals::<C>(gc), id.0.0, s1::<C>()), old_pk.verifying_shares@[id].0.0)))
+}
+
+// loop 0 of refresh_dkg_shares: the round-1 packages with the identity re-inserted, for the j smallest senders
+pub open spec fn spec_recompleted_acc<C: Ciphersuite>(nr1: Map<Identifier<C>, round1::Package<C>>, keys: Seq<Identifier<C>>,
+        r1: Map<Identifier<C>, round1::Package<C>>, j: int) -> bool {
+    nr1.dom() == keys.take(j).to_set()
+    && forall|k: int| 0 <= k < j ==> nr1[#[trigger] keys[k]].commitment.0@ == spec_with_identity::<C>(r1[keys[k]].commitment.0@)
+}
+pub open spec fn spec_recompleted<C: Ciphersuite>(nr1: Map<Identifier<C>, round1::Package<C>>, r1: Map<Identifier<C>, round1::Package<C>>) -> bool {
+    nr1.dom() == r1.dom()
+    && forall|id: Identifier<C>| r1.contains_key(id) ==> (#[trigger] nr1[id]).commitment.0@ == spec_with_identity::<C>(r1[id].commitment.0@)
+}
+
+// `full` is `stripped` with the identity commitment in front, stated element by element (so that the solver can establish it for a freshly
+// built vector without an extensionality hint that would have to restate the code)
+pub open spec fn spec_is_recompleted<C: Ciphersuite>(full: Seq<CoefficientCommitment<C>>, stripped: Seq<CoefficientCommitment<C>>) -> bool {
+    full.len() == stripped.len() + 1 && full[0] == identity_cc::<C>()
+    && forall|i: int| 0 <= i < stripped.len() ==> full[i + 1] == #[trigger] stripped[i]
+}
+pub proof fn lemma_is_recompleted<C: Ciphersuite>(full: Seq<CoefficientCommitment<C>>, stripped: Seq<CoefficientCommitment<C>>)
+    ensures spec_is_recompleted::<C>(full, stripped) == (full == spec_with_identity::<C>(stripped))
+{
+    if spec_is_recompleted::<C>(full, stripped) {
+        assert forall|k: int| 0 <= k < full.len() implies full[k] == spec_with_identity::<C>(stripped)[k] by { if k > 0 { assert(full[(k - 1) + 1] == stripped[k - 1]); } }
+        assert(full =~= spec_with_identity::<C>(stripped));
+    }
+    if full == spec_with_identity::<C>(stripped) {
+        assert forall|i: int| 0 <= i < stripped.len() implies full[i + 1] == #[trigger] stripped[i] by {}
+    }
+}
+
+pub proof fn lemma_recompleted_acc_step<C: Ciphersuite>(nr1: Map<Identifier<C>, round1::Package<C>>, keys: Seq<Identifier<C>>,
+        r1: Map<Identifier<C>, round1::Package<C>>, j: int, p: round1::Package<C>)
+    ensures 0 <= j < keys.len() && keys.no_duplicates() && spec_recompleted_acc::<C>(nr1, keys, r1, j)
+            && spec_is_recompleted::<C>(p.commitment.0@, r1[keys[j]].commitment.0@)
+        ==> spec_recompleted_acc::<C>(nr1.insert(keys[j], p), keys, r1, j + 1)
+{
+  if 0 <= j < keys.len() && keys.no_duplicates() && spec_recompleted_acc::<C>(nr1, keys, r1, j) && spec_is_recompleted::<C>(p.commitment.0@, r1[keys[j]].commitment.0@) {
+    lemma_is_recompleted::<C>(p.commitment.0@, r1[keys[j]].commitment.0@);
+    let n2 = nr1.insert(keys[j], p);
+    assert(keys.take(j + 1) =~= keys.take(j).push(keys[j]));
+    assert(n2.dom() =~= keys.take(j + 1).to_set()) by {
+        assert forall|x: Identifier<C>| n2.dom().contains(x) <==> keys.take(j + 1).to_set().contains(x) by {
+            if nr1.dom().contains(x) { let w = choose|w: int| 0 <= w < keys.take(j).len() && keys.take(j)[w] == x; assert(keys.take(j + 1)[w] == x); }
+            if x == keys[j] { assert(keys.take(j + 1)[j] == x); }
+            if keys.take(j + 1).contains(x) { let w = choose|w: int| 0 <= w < j + 1 && #[trigger] keys.take(j + 1)[w] == x; if w < j { assert(keys.take(j)[w] == x); assert(keys.take(j).contains(x)); } }
+        }
+    }
+    assert forall|k: int| 0 <= k < j + 1 implies n2[#[trigger] keys[k]].commitment.0@ == spec_with_identity::<C>(r1[keys[k]].commitment.0@) by { if k < j { assert(keys[k] != keys[j]); } }
+  }
+}
+
+pub proof fn lemma_recompleted_done<C: Ciphersuite>(nr1: Map<Identifier<C>, round1::Package<C>>, keys: Seq<Identifier<C>>, r1: Map<Identifier<C>, round1::Package<C>>)
+    ensures spec_recompleted_acc::<C>(nr1, keys, r1, keys.len() as int) && keys.to_set() == r1.dom() ==> spec_recompleted::<C>(nr1, r1)
+{
+  if spec_recompleted_acc::<C>(nr1, keys, r1, keys.len() as int) && keys.to_set() == r1.dom() {
+    assert(keys.take(keys.len() as int) =~= keys);
+    assert forall|id: Identifier<C>| r1.contains_key(id) implies (#[trigger] nr1[id]).commitment.0@ == spec_with_identity::<C>(r1[id].commitment.0@) by {
+        assert(keys.to_set().contains(id));
+        let w = choose|w: int| 0 <= w < keys.len() && keys[w] == id;
+        assert(nr1[keys[w]].commitment.0@ == spec_with_identity::<C>(r1[keys[w]].commitment.0@));
+    }
+  }
+}
+
+// loop 1: as long as the first j shares verify, the first failing share overall is the first failing share from j on
+pub proof fn lemma_refresh_first_share_err_step<C: Ciphersuite>(keys: Seq<Identifier<C>>, r1: Map<Identifier<C>, round1::Package<C>>,
+        r2: Map<Identifier<C>, round2::Package<C>>, own: Identifier<C>, j: int)
+    ensures 0 <= j <= keys.len() && (forall|k: int| 0 <= k < j ==> spec_refresh_share_ok::<C>(own, r2[#[trigger] keys[k]].signing_share.0.0, r1[keys[k]].commitment.0@) is Ok)
+        ==> spec_refresh_first_share_err::<C>(keys, r1, r2, own, 0) == spec_refresh_first_share_err::<C>(keys, r1, r2, own, j)
+    decreases j
+{
+    if 0 < j <= keys.len() && (forall|k: int| 0 <= k < j ==> spec_refresh_share_ok::<C>(own, r2[#[trigger] keys[k]].signing_share.0.0, r1[keys[k]].commitment.0@) is Ok) {
+        lemma_refresh_first_share_err_step::<C>(keys, r1, r2, own, j - 1);
+        assert(spec_refresh_share_ok::<C>(own, r2[keys[j - 1]].signing_share.0.0, r1[keys[j - 1]].commitment.0@) is Ok);
+    }
+}
+
+// loop 2: the refreshed verifying shares for the j smallest participants of the run
+pub open spec fn spec_new_vs_acc<C: Ciphersuite>(nvs: Map<Identifier<C>, VerifyingShare<C>>, keys: Seq<Identifier<C>>, zvs: Map<Identifier<C>, VerifyingShare<C>>,
+        old_vs: Map<Identifier<C>, VerifyingShare<C>>, j: int) -> bool {
+    nvs.dom() == keys.take(j).to_set()
+    && (forall|k: int| 0 <= k < j ==> old_vs.contains_key(#[trigger] keys[k]))
+    && (forall|k: int| 0 <= k < j ==> nvs[#[trigger] keys[k]] == VerifyingShare::<C>(SerializableElement(eadd::<C>(zvs[keys[k]].0.0, old_vs[keys[k]].0.0))))
+}
+
+pub proof fn lemma_new_vs_acc_step<C: Ciphersuite>(nvs: Map<Identifier<C>, VerifyingShare<C>>, keys: Seq<Identifier<C>>, zvs: Map<Identifier<C>, VerifyingShare<C>>,
+        old_vs: Map<Identifier<C>, VerifyingShare<C>>, j: int)
+    ensures 0 <= j < keys.len() && keys.no_duplicates() && spec_new_vs_acc::<C>(nvs, keys, zvs, old_vs, j) && old_vs.contains_key(keys[j])
+        ==> spec_new_vs_acc::<C>(nvs.insert(keys[j], VerifyingShare::<C>(SerializableElement(eadd::<C>(zvs[keys[j]].0.0, old_vs[keys[j]].0.0)))), keys, zvs, old_vs, j + 1)
+{
+  if 0 <= j < keys.len() && keys.no_duplicates() && spec_new_vs_acc::<C>(nvs, keys, zvs, old_vs, j) && old_vs.contains_key(keys[j]) {
+    let n2 = nvs.insert(keys[j], VerifyingShare::<C>(SerializableElement(eadd::<C>(zvs[keys[j]].0.0, old_vs[keys[j]].0.0))));
+    assert(keys.take(j + 1) =~= keys.take(j).push(keys[j]));
+    assert(n2.dom() =~= keys.take(j + 1).to_set()) by {
+        assert forall|x: Identifier<C>| n2.dom().contains(x) <==> keys.take(j + 1).to_set().contains(x) by {
+            if nvs.dom().contains(x) { let w = choose|w: int| 0 <= w < keys.take(j).len() && keys.take(j)[w] == x; assert(keys.take(j + 1)[w] == x); }
+            if x == keys[j] { assert(keys.take(j + 1)[j] == x); }
+            if keys.take(j + 1).contains(x) { let w = choose|w: int| 0 <= w < j + 1 && #[trigger] keys.take(j + 1)[w] == x; if w < j { assert(keys.take(j)[w] == x); assert(keys.take(j).contains(x)); } }
+        }
+    }
+    assert forall|k: int| 0 <= k < j + 1 implies n2[#[trigger] keys[k]] == VerifyingShare::<C>(SerializableElement(eadd::<C>(zvs[keys[k]].0.0, old_vs[keys[k]].0.0))) by { if k < j { assert(keys[k] != keys[j]); } }
+  }
+}
+
+pub proof fn lemma_new_vs_done<C: Ciphersuite>(nvs: Map<Identifier<C>, VerifyingShare<C>>, keys: Seq<Identifier<C>>, zvs: Map<Identifier<C>, VerifyingShare<C>>,
+        old_vs: Map<Identifier<C>, VerifyingShare<C>>, dom: Set<Identifier<C>>)
+    ensures spec_new_vs_acc::<C>(nvs, keys, zvs, old_vs, keys.len() as int) && keys.to_set() == dom ==>
+        nvs.dom() == dom
+        && (forall|id: Identifier<C>| dom.contains(id) ==> #[trigger] old_vs.contains_key(id))
+        && (forall|id: Identifier<C>| dom.contains(id) ==> #[trigger] nvs[id] == VerifyingShare::<C>(SerializableElement(eadd::<C>(zvs[id].0.0, old_vs[id].0.0))))
+{
+  if spec_new_vs_acc::<C>(nvs, keys, zvs, old_vs, keys.len() as int) && keys.to_set() == dom {
+    assert(keys.take(keys.len() as int) =~= keys);
+    assert forall|id: Identifier<C>| dom.contains(id) implies #[trigger] old_vs.contains_key(id)
+            && #[trigger] nvs[id] == VerifyingShare::<C>(SerializableElement(eadd::<C>(zvs[id].0.0, old_vs[id].0.0))) by {
+        assert(keys.to_set().contains(id));
+        let w = choose|w: int| 0 <= w < keys.len() && keys[w] == id;
+        assert(old_vs.contains_key(keys[w]));
+        assert(nvs[keys[w]] == VerifyingShare::<C>(SerializableElement(eadd::<C>(zvs[keys[w]].0.0, old_vs[keys[w]].0.0))));
+    }
+  }
+}
+
+// what iterating a BTreeMap BY VALUE yields (the outlined `for (k, v) in map` of refresh_dkg_shares): the (key, value) pairs in ascending
+// key order = sorted_seq of the domain.  Owned-pair twin of lemma_btree_iter_sorted (lemmas/vorder.rs).
+pub proof fn lemma_btree_pairs_sorted<K: Ord, V>(m: Map<K, V>, pairs: Seq<(K, V)>)
+    requires vstd::laws_cmp::obeys_cmp::<K>(), lt_laws::<K>(),
+        pairs.len() == m.dom().len(), m.dom().finite(),
+        forall|i: int| 0 <= i < pairs.len() ==> m.contains_key((#[trigger] pairs[i]).0) && m[pairs[i].0] == pairs[i].1,
+        vstd::std_specs::btree::increasing_seq(pairs.map_values(|p: (K, V)| p.0)),
+    ensures pairs.map_values(|p: (K, V)| p.0) == sorted_seq(m.dom()), pairs.map_values(|p: (K, V)| p.0).no_duplicates(),
+        pairs.map_values(|p: (K, V)| p.0).to_set() == m.dom(),
+        forall|i: int| 0 <= i < pairs.len() ==> (#[trigger] pairs[i]).1 == m[sorted_seq(m.dom())[i]],
+{
+    let ks = pairs.map_values(|p: (K, V)| p.0);
+    assert(ks.no_duplicates()) by {
+        broadcast use vstd::std_specs::btree::axiom_increasing_seq_meaning;
+        assert forall|i: int, j: int| 0 <= i < ks.len() && 0 <= j < ks.len() && i != j implies ks[i] != ks[j] by {
+            if i < j { assert(lt(ks[i], ks[j])); } else { assert(lt(ks[j], ks[i])); }
+        }
+    }
+    ks.unique_seq_to_set();
+    assert(ks.to_set().subset_of(m.dom())) by {
+        assert forall|x: K| ks.to_set().contains(x) implies m.dom().contains(x) by {
+            let w = choose|w: int| 0 <= w < ks.len() && ks[w] == x; assert(m.contains_key(pairs[w].0));
+        }
+    }
+    vstd::set_lib::lemma_subset_equality(ks.to_set(), m.dom());
+    lemma_sorted_seq::<K>(ks, m.dom());
+    assert forall|i: int| 0 <= i < pairs.len() implies (#[trigger] pairs[i]).1 == m[sorted_seq(m.dom())[i]] by { assert(ks[i] == pairs[i].0); }
+}
+
 } // verus!
 }
